@@ -63,7 +63,11 @@ var faultKinds = map[string][]string{
 	"hs.trunc":  {"err"},
 	"hs.close":  {"err"},
 	"base.new":  {"err"},
-	"alloc":     {"exhausted", "one"},
+	// The file the base pool handed to the quota layer refuses the call
+	// before doing anything (a base pool other than the block device
+	// backed one may fail to grow or shrink a file).
+	"base.trunc": {"err"},
+	"alloc":      {"exhausted", "one"},
 }
 
 func injected(site string) error {
@@ -321,12 +325,28 @@ func (fp *faultyPool) NewFile(hs pool.HoleSource, size uint64) (filesystem.FileR
 		return nil, injected("base.new")
 	}
 	f, err := fp.base.NewFile(hs, size)
+	if err == nil && fp.plan != nil {
+		f = &faultyBaseFile{FileReadWriter: f, plan: fp.plan}
+	}
 	if err != nil || fp.meter == nil {
 		return f, err
 	}
 	fp.meter.add(&fp.meter.files, 1, fp.meter.maxFiles, "files")
 	fp.meter.add(&fp.meter.bytes, int64(size), fp.meter.maxBytes, "bytes")
 	return &meteredFile{FileReadWriter: f, meter: fp.meter, size: int64(size)}, nil
+}
+
+// faultyBaseFile is a file of the base pool as the quota layer sees it.
+type faultyBaseFile struct {
+	filesystem.FileReadWriter
+	plan *faultPlan
+}
+
+func (f *faultyBaseFile) Truncate(size int64) error {
+	if f.plan.hit("base.trunc") != "" {
+		return injected("base.trunc")
+	}
+	return f.FileReadWriter.Truncate(size)
 }
 
 // quotaMeter counts, below the quota layer, the files that exist and the
